@@ -1,5 +1,6 @@
 CONSTANTS
  Limit = 2
+ Limits = {2, 3}
  MaxOps = 6
  TornRemoved = TRUE
  EmitFrom = 0
